@@ -87,12 +87,13 @@ class ConcurrentTestSuite(unittest.TestSuite):
                 reader_thread = threading.Thread(
                     target=self._run_test, args=(test, process_result, queue)
                 )
-                threads[test] = reader_thread, process_result
+                # Keyed by identity: sub-suites need not be hashable (a
+                # unittest.TestSuite is not) and equal ones are distinct.
+                threads[id(test)] = reader_thread, process_result
                 reader_thread.start()
             while threads:
                 finished_test = queue.get()
-                threads[finished_test][0].join()
-                del threads[finished_test]
+                threads.pop(id(finished_test))[0].join()
         except:
             for thread, process_result in threads.values():
                 process_result.stop()
